@@ -128,6 +128,11 @@ fn canon_diags(d: &Value) -> Vec<String> {
 
 /// final (op index, version, text) per URI that is still open at the end
 fn final_edits(spec: &Value) -> BTreeMap<String, (usize, i64, String, u64)> {
+    edits_at(spec, usize::MAX)
+}
+
+/// the same for the prefix of the first `n_ops` operations
+fn edits_at(spec: &Value, n_ops: usize) -> BTreeMap<String, (usize, i64, String, u64)> {
     let mut m = BTreeMap::new();
     // the lookahead limit in effect when an edit is handled: `-k`, then the initialization
     // options, then every workspace/didChangeConfiguration seen so far
@@ -135,7 +140,7 @@ fn final_edits(spec: &Value) -> BTreeMap<String, (usize, i64, String, u64)> {
     if let Some(k) = spec["init"]["initializationOptions"]["max_k"].as_u64() {
         cur_k = k;
     }
-    for (i, op) in spec["ops"].as_array().into_iter().flatten().enumerate() {
+    for (i, op) in spec["ops"].as_array().into_iter().flatten().enumerate().take(n_ops) {
         let u = op["uri"].as_str().unwrap_or("").to_string();
         match op["t"].as_str() {
             Some("open") | Some("change") => {
@@ -155,6 +160,40 @@ fn final_edits(spec: &Value) -> BTreeMap<String, (usize, i64, String, u64)> {
     m
 }
 
+/// Intermediate quiescent points of a run (DESIGN §3.6): op indices i (not the last op) such that
+/// every analysis thread spawned while ops 0..=i were handled had exited before the main thread
+/// reached the message boundary of op i+1.  At such a point the run so far *is* a complete run of
+/// the history ops[0..=i] - all its analyses have finished, nothing of the later ops has happened -
+/// so the property's oracle applies to it as it does to the whole history.  Outputs of the prefix
+/// are those recorded with `after_msgs <= i+1`.
+fn quiescent_prefixes(spec: &Value, rec: &Value) -> Vec<usize> {
+    let n_ops = spec["ops"].as_array().map(|a| a.len()).unwrap_or(0);
+    let threads: Vec<Value> = rec["threads"].as_array().cloned().unwrap_or_default();
+    if rec["main"]["exit"] != "ok" || rec["deadlock"].as_bool() == Some(true) {
+        return vec![];
+    }
+    // records written before this field existed (old replay files) give no intermediate points
+    if threads.iter().any(|t| t.get("exit_after_msgs").and_then(|v| v.as_i64()).is_none()) {
+        return vec![];
+    }
+    let mut v = vec![];
+    for i in 0..n_ops.saturating_sub(1) {
+        // only after an edit: the state after other operations is checked at the next edit anyway
+        if !matches!(spec["ops"][i]["t"].as_str(), Some("open") | Some("change") | Some("config")) {
+            continue;
+        }
+        let quiet = threads.iter().all(|t| {
+            let sop = t["spawned_by_op"].as_i64().unwrap_or(-1);
+            let ex = t["exit_after_msgs"].as_i64().unwrap_or(-1);
+            sop > i as i64 || (ex >= 0 && ex <= i as i64 + 1)
+        });
+        if quiet {
+            v.push(i);
+        }
+    }
+    v
+}
+
 /// Reference runs use one fixed hash seed: the oracle compares canonically sorted diagnostics,
 /// and a reference is then shared by all runs that end in the same (uri, version, text, k).
 const REF_HASH_SEED: u64 = 0x5EED;
@@ -165,6 +204,7 @@ fn ref_key(uri: &str, version: i64, text: &str, k: u64) -> String {
 
 struct C29Stats {
     uri_checks: u64,
+    prefix_checks: u64,
     reference_crash: u64,
     main_crash: u64,
     stale_completion: u64,
@@ -196,6 +236,7 @@ fn check_c29(spec: &Value, rec: &Value, refs: &BTreeMap<String, Value>, stats: O
     // probes / signatures
     let mut local = C29Stats {
         uri_checks: 0,
+        prefix_checks: 0,
         reference_crash: 0,
         main_crash: 0,
         stale_completion: 0,
@@ -271,8 +312,15 @@ fn check_c29(spec: &Value, rec: &Value, refs: &BTreeMap<String, Value>, stats: O
         local.nontrivial_signatures.insert(sig);
     }
 
+    // check points: every intermediate quiescent point, then the end of the history
+    let n_ops = ops.len();
+    let mut points: Vec<(usize, bool)> = if main_ok { quiescent_prefixes(spec, rec).into_iter().map(|i| (i, true)).collect() } else { vec![] };
     if main_ok {
-        for (uri, (op_idx, version, text, k)) in &finals {
+        points.push((n_ops.saturating_sub(1), false));
+    }
+    for (upto, intermediate) in points {
+        let finals_here = if intermediate { edits_at(spec, upto + 1) } else { finals.clone() };
+        for (uri, (op_idx, version, text, k)) in &finals_here {
             let rk = ref_key(uri, *version, text, *k);
             let Some(reference) = refs.get(&rk) else { continue };
             if reference["main"]["exit"] != "ok" || reference.get("harness_error").is_some() {
@@ -280,8 +328,14 @@ fn check_c29(spec: &Value, rec: &Value, refs: &BTreeMap<String, Value>, stats: O
                 continue;
             }
             local.uri_checks += 1;
+            if intermediate {
+                local.prefix_checks += 1;
+            }
             let ref_pubs = publishes_for(reference, uri);
-            let pubs = publishes_for(rec, uri);
+            let pubs: Vec<&Value> = publishes_for(rec, uri)
+                .into_iter()
+                .filter(|p| !intermediate || p["after_msgs"].as_u64().unwrap_or(u64::MAX) <= upto as u64 + 1)
+                .collect();
             let Some(ref_last) = ref_pubs.last() else { continue };
             let Some(last) = pubs.last() else {
                 findings.push(Finding {
@@ -323,7 +377,8 @@ fn check_c29(spec: &Value, rec: &Value, refs: &BTreeMap<String, Value>, stats: O
                 class: class.into(),
                 key: String::new(),
                 detail: format!(
-                    "{uri}: final edit is op {op_idx} (version {version}); last publish has version {got_version} by thread {} with {} diagnostics, reference has {}",
+                    "{uri}: {}final edit is op {op_idx} (version {version}); last publish has version {got_version} by thread {} with {} diagnostics, reference has {}",
+                    if intermediate { format!("at the quiescent point after op {upto}: ") } else { String::new() },
                     last["by"], got.len(), want.len()
                 ),
             });
@@ -331,6 +386,7 @@ fn check_c29(spec: &Value, rec: &Value, refs: &BTreeMap<String, Value>, stats: O
     }
     if let Some(s) = stats {
         s.uri_checks += local.uri_checks;
+        s.prefix_checks += local.prefix_checks;
         s.reference_crash += local.reference_crash;
         s.main_crash += local.main_crash;
         s.stale_completion += local.stale_completion;
@@ -345,16 +401,22 @@ fn check_c29(spec: &Value, rec: &Value, refs: &BTreeMap<String, Value>, stats: O
     findings
 }
 
-fn needed_refs(spec: &Value) -> Vec<(String, Value)> {
-    final_edits(spec)
-        .into_iter()
-        .map(|(uri, (_, version, text, k))| {
-            (
-                ref_key(&uri, version, &text, k),
-                reference_spec(&uri, version, &text, k, REF_HASH_SEED, &json!({"capabilities": {}})),
-            )
-        })
-        .collect()
+fn needed_refs(spec: &Value, rec: &Value) -> Vec<(String, Value)> {
+    let mut all = vec![final_edits(spec)];
+    for i in quiescent_prefixes(spec, rec) {
+        all.push(edits_at(spec, i + 1));
+    }
+    let mut seen = BTreeSet::new();
+    let mut v = vec![];
+    for m in all {
+        for (uri, (_, version, text, k)) in m {
+            let key = ref_key(&uri, version, &text, k);
+            if seen.insert(key.clone()) {
+                v.push((key, reference_spec(&uri, version, &text, k, REF_HASH_SEED, &json!({"capabilities": {}}))));
+            }
+        }
+    }
+    v
 }
 
 // ---------------------------------------------------------------------------
@@ -510,8 +572,8 @@ impl Ctx<'_> {
             let mut refs: BTreeMap<String, Value> = BTreeMap::new();
             let mut ref_specs = vec![];
             let mut ref_keys = vec![];
-            for s in specs {
-                for (k, rs) in needed_refs(s) {
+            for (s, r) in specs.iter().zip(recs.iter()) {
+                for (k, rs) in needed_refs(s, r) {
                     if !refs.contains_key(&k) {
                         refs.insert(k.clone(), Value::Null);
                         ref_keys.push(k);
@@ -883,8 +945,8 @@ fn run_batch(ctx: &Ctx, tier: Tier, corpus: &Corpus, emit_log: Option<&Path>) ->
         let mut refs: BTreeMap<String, Value> = BTreeMap::new();
         let mut ref_specs = vec![];
         let mut ref_keys = vec![];
-        for s in &specs {
-            for (k, rs) in needed_refs(s) {
+        for (s, r) in specs.iter().zip(recs.iter()) {
+            for (k, rs) in needed_refs(s, r) {
                 if !refs.contains_key(&k) {
                     refs.insert(k.clone(), Value::Null);
                     ref_keys.push(k);
@@ -898,6 +960,7 @@ fn run_batch(ctx: &Ctx, tier: Tier, corpus: &Corpus, emit_log: Option<&Path>) ->
         }
         let mut st = C29Stats {
             uri_checks: 0,
+            prefix_checks: 0,
             reference_crash: 0,
             main_crash: 0,
             stale_completion: 0,
@@ -919,10 +982,11 @@ fn run_batch(ctx: &Ctx, tier: Tier, corpus: &Corpus, emit_log: Option<&Path>) ->
         }
         ev.evaluations = st.uri_checks;
         ev.distinct_nontrivial = st.nontrivial_signatures.len() as u64;
-        ev.rule = "one evaluation = one per-document check 'last published diagnostics == diagnostics of a single-edit reference run of the final text, tagged with the final version' after quiescence of a simulated history (1-3 documents, up to 8/12 open/change notifications, seeded thread schedule of the real main loop and analysis threads). distinct_nontrivial = distinct publish-order signatures (sequence of (publisher M/B, document, version rank, empty/non-empty)) that contain at least one background publish out of canonical position (after a later edit of the same document was handled, or before the main thread's own publish of that version).".into();
+        ev.rule = "one evaluation = one per-document check 'last published diagnostics == diagnostics of a single-edit reference run of the final text, tagged with the final version' after quiescence of a simulated history - at its end and at every intermediate point of the run at which all analyses started so far had finished before the next message was handled (such a point is the end of a complete run of the prefix; counted in probes.intermediate_quiescent_point_checks) - (1-3 documents, up to 8/12 open/change notifications, seeded thread schedule of the real main loop and analysis threads). distinct_nontrivial = distinct publish-order signatures (sequence of (publisher M/B, document, version rank, empty/non-empty)) that contain at least one background publish out of canonical position (after a later edit of the same document was handled, or before the main thread's own publish of that version).".into();
         ev.set("distinct_publish_order_signatures", json!(st.signatures.len()));
         ev.set("reference_runs", json!(refs.len()));
         ev.set("probes", json!({
+            "intermediate_quiescent_point_checks": st.prefix_checks,
             "stale_completion": st.stale_completion, "fast_completion": st.fast_completion,
             "runs_with_overlap_ge_2": st.overlap2, "bg_crash_final": st.bg_crash_final,
             "main_crash_no_verdict": st.main_crash, "reference_crash_no_verdict": st.reference_crash,
